@@ -149,7 +149,7 @@ WellFormed(e) ==
   /\ (c.op = "new" => (c.name \in TNames \cup {""} /\ c.kind \in O!Kinds /\ O!SeqSet(c.outs) \subseteq TNodes))
   /\ (c.op = "open" => c.name \in O!AllNames)
   /\ (c.op = "set_context" => c.seed \in TSeeds /\ c.bs > 0)
-  /\ (c.op = "add_batch" => O!SeqSet(c.ns) \subseteq TNodes)
+  /\ (c.op \in {"add_batch", "get_batch"} => O!SeqSet(c.ns) \subseteq TNodes)
   /\ (c.op \in {"add_store", "remove_store"} => c.node \in TNodes)
   /\ (c.op \in {"move", "copy"} => (InDirs(c.d1) /\ InDirs(c.d2) /\ c.d1 # c.d2))
   /\ (cur.cwd # O!Home => c.op = "chdir_home")
